@@ -2,7 +2,6 @@
 //
 //	rgh run <Cxx> -tier quick|thorough -seed N -drv <rgdrv> -out <result.json>
 //	rgh extract -out <dir>          regenerate lean/Rg/Gen/*.lean from the code in /repo
-//	rgh replay <Cxx> <replay.json>  re-run one recorded failing input on the implementation
 package main
 
 import (
